@@ -127,7 +127,9 @@ def run_list_template_case(ctx, mon, opts):
         prods = {
             # (a second, unrelated template in the same grammar)
             'E': [('LIST',), ('M2',)],
-            'M2': llparser.MapProds('{', 'w', ':', 'w', ',', '}'),
+            # (its keys are written as two words: the key of an entry is a tree node, not a string)
+            'M2': llparser.MapProds('{', 'KEY', ':', 'w', ',', '}'),
+            'KEY': [('w', 'w')],
             'LIST': llparser.ListProds(open_sym, 'ITEM', 'DELIM', ']', allow_final_delimiter=afd,
                                        optional=optional or None),
             'ITEM': ([('LIST', 'w')] if item_starts_with_list else []) + [('w',)] + ([None] if item_nullable else []),
@@ -178,12 +180,15 @@ def run_list_template_case(ctx, mon, opts):
             ctx.violation("left-recursive-grammar-accepted", {"template": "ListProds", "opts": list(opts),
                                                               "cycle": cycle}, case)
         ctx.count("accepted_grammars")
-        for text in ("[]", "[w]", "[w, w]", "[w w]", "[,]", "[w,]", "[", "w", "[w,,w]", "", "w ]", "[[w] w, w]", "[w] w ]"):
+        for k_text, text in enumerate(("[]", "[w]", "[w, w]", "[w w]", "[,]", "[w,]", "[", "w", "[w,,w]", "", "w ]",
+                                       "[[w] w, w]", "[w] w ]", "{}", "{w w: w}", "{w w: w, w w: w, w w: w}", "{w: w}",
+                                       "{w w: w, w w: w}")):
             ctx.evaluated()
             mon.reset()
             mon.stack_bound = (len(text) + 3) * (len(parser.prods_map) + 2)
             try:
-                parser.parse(text)
+                # (every other text with the parser's trace switched on: the result is printed to the log)
+                parser.parse(text, debug=bool(k_text % 2))
             except llparser.Error:
                 pass
             except llmon.StackBoundExceeded as err:
